@@ -242,6 +242,26 @@ CHECKS["C18"] = dict(
     note=TB + "; Checker/KktZ.f2z decodes binary64 literals via the kernel's Prim2SF; untrusted Python oracle supplies witnesses only",
 )
 
+CHECKS["C15"] = dict(
+    category="proof",
+    text=("Proved in Coq (Props/C15.v). (a) Result checker poly_cert_sound: whenever the integer checker accepts the exact rationals of what the "
+          "implementation returned for a tetrahedron pair, every polygon vertex lies on the reported plane, has barycentric coordinates >= -1e-9 "
+          "in BOTH tetrahedra, the polygon is convex and counter-clockwise about the normal with fan area >= 0, the force is parallel to the normal "
+          "with pressure >= 0; sep_cert_sound certifies disjoint hulls. (b) About the Gallina model Model/Hydro.v (line-by-line transliteration of "
+          "contact_plane, the plane-crossing pre-check, make_halfplanes with its row bookkeeping, intersect_halfplanes, filter_unique_points, "
+          "project_polygon_to_3d, intersect_tetrahedron_pair, compute_contact_force), for ALL inputs: halfplanes_compact (the F14 property), "
+          "intersect_halfplanes sound and complete in exact arithmetic, the vertex set is characterised without the 2-D basis and is identical "
+          "for the swapped call, the plane is the equal-pressure set with unit normal, every reported vertex lies on the plane and inside every "
+          "non-parallel face of both tetrahedra (parallel faces: pre-check theorem; _partial), one-sided pairs give intersection = False, pressure "
+          ">= 0. Judged per generated input: every reported pair (11 classes of single pairs, factory bodies through find_contact_surface with "
+          "both broad phases) by poly_cert in coqc on exact rationals; completeness against the exact rational intersection polygon and order "
+          "independence by Python oracles; the binary64 model run must reproduce every stage. Known finding F26 (vertices on concurrent face "
+          "lines lost by the absolute tolerance)."),
+    design_ref="DESIGN.md section 5, C15",
+    technique="Coq-proven result checker (vm_compute on exact rationals) + Coq proofs about a hand-written Gallina model + stage-wise model/implementation correspondence + exact rational reference polygon",
+    note=TB + "; harness/hydrogen.py (generators, exact reference polygon, F26 predicate); pinv and arctan2 ordering are inputs of the model",
+)
+
 NA_DEFAULT = "no check registered yet: machinery under construction in this session (DESIGN.md section 5 has the plan); not claimed"
 NA = {}
 
